@@ -27,11 +27,11 @@ def pinnedSkeleton : List (String × String) := [
   ("exeParser.readField", "a34d4efa5ee5"),
   ("exeParser.readFragRef", "9c97fce48d73"),
   ("exeParser.readFragment", "9888b86ba516"),
-  ("exeParser.readFragmentDef", "3281aee512e0"),
+  ("exeParser.readFragmentDef", "ac7947967256"),
   ("exeParser.readInline", "c937b7931829"),
   ("exeParser.readOp", "3f2c7946f8fe"),
   ("exeParser.readSelectionSet", "633413140d11"),
-  ("exeParser.readVarDef", "d6b69b1b20cb"),
+  ("exeParser.readVarDef", "c683f216d2b6"),
   ("exeParser.readVarDefs", "007f8ff5b513"),
   ("parseExe", "b2fc5513a9c5"),
   ("parseSDL", "5c0f8828856d"),
@@ -92,7 +92,7 @@ theorem C03_parseValue_total_current (bytes : List UInt8) (tail : Tail) :
 
 /-- **C03 for request documents on the tables of this run** -/
 theorem C03_parseExe_total_current (bytes : List UInt8) (tail : Tail) :
-    (ExeCF.parseExe genCM { varTypeOptional := Gen.exeVarTypeOptional, opErrPosAfterLookahead := Gen.opErrPosAfterLookahead } (sdlFuel bytes) bytes tail).2.oof = false :=
+    (ExeCF.parseExe genCM { varTypeOptional := Gen.exeVarTypeOptional, opErrPosAfterLookahead := Gen.opErrPosAfterLookahead, fragCondPosAfterToken := Gen.fragCondPosAfterToken } (sdlFuel bytes) bytes tail).2.oof = false :=
   C03_parseExe_total genCM gen_numStart_isNum_all _ bytes tail
 
 theorem gen_quote_not_space : genCM.isSpace 34 = false := by decide
